@@ -48,10 +48,7 @@ static int xread(void *p, size_t n)
   while (n > 0) {
     ssize_t r = read(g_ctl, c, n);
     if (r < 0) {
-      if (errno == EINTR) {
-        if (g_sigany && c == (char *) p) return -1; /* let caller report signals */
-        continue;
-      }
+      if (errno == EINTR) continue;
       die(98);
     }
     if (r == 0) return 0;
@@ -70,21 +67,15 @@ static void reply(int st, int n, const void *data, size_t len)
 
 static void on_signal(int s)
 {
+  /* The helper is idle whenever the harness lets a signal reach it, so the notification cannot
+   * interleave with a reply; write() is async-signal-safe. */
+  int e = errno;
+  struct vc_rep r = { ST_SIG, s };
   if (s >= 0 && s < 65) g_sig[s]++;
-  g_sigany = 1;
+  (void) !write(g_ctl, &r, sizeof r);
+  errno = e;
 }
 
-static void flush_signals(void)
-{
-  if (!g_sigany) return;
-  g_sigany = 0;
-  for (int s = 1; s < 65; s++) {
-    while (g_sig[s] > 0) {
-      g_sig[s]--;
-      reply(ST_SIG, s, NULL, 0);
-    }
-  }
-}
 
 /* ---- hello ------------------------------------------------------------ */
 
@@ -323,7 +314,6 @@ void vchild_run(int ctl, int image, char *const *argv, char *const *envp)
   signal(SIGPIPE, SIG_IGN);
 
   for (;;) {
-    flush_signals();
     struct vc_cmd c;
     int r = xread(&c, sizeof c);
     if (r < 0) continue; /* interrupted by a handled signal: report it */
